@@ -41,6 +41,33 @@ Theorem C17_closed_silent : forall c w e w', Inv c w -> closed (ws w) = true -> 
   wp w' = match e with EPeerDrop => wp w' | _ => wp w end.
 Proof. exact closed_silent. Qed.
 
+(* ... over all interleavings of Close with everything else, including
+   handshake steps attempted after it: once the Close step has happened nothing
+   is written and nothing dials (connect's dial + OPEN exchange + accepting
+   KEEPALIVE is ONE critical section, so it is entirely before or entirely
+   refused after Close) *)
+Theorem C17_no_message_after_close : forall c es1 es2 w,
+  run c world0 (es1 ++ EClose :: es2) = Some w ->
+  exists w1, run c world0 (es1 ++ [EClose]) = Some w1 /\ closed (ws w1) = true /\
+             run_emitted c w1 es2 = [] /\ forallb (fun e => negb (dials e)) es2 = true /\
+             closed (ws w) = true /\ conn (ws w) = None.
+Proof. exact no_message_after_close. Qed.
+
+(* the OPEN the session writes carries the CONFIGURED AS number and hold time:
+   90 s only for an unset (nil) hold time; an explicit 0 is sent as 0 and there
+   is then no keepalive timer *)
+Theorem C17_session_open_decodes : forall c rid bs w4,
+  my_asn c < 4294967296 -> wf_ip4 rid -> session_hold c < 65536 -> (session_hold c = 0 \/ 3 <= session_hold c) ->
+  enc_open (my_asn c) rid (session_hold c) = Some bs ->
+  dec_msg w4 bs = Some (intended_open (my_asn c) rid (session_hold c)).
+Proof. exact session_open_decodes. Qed.
+
+Theorem C17_session_hold_spec : forall c,
+  (cfg_hold c = None -> session_hold c = 90) /\
+  (forall h, cfg_hold c = Some h -> session_hold c = h) /\
+  (cfg_hold c = Some 0 -> forall ph, keepalive_period c ph = None).
+Proof. exact session_hold_spec. Qed.
+
 (* duplicate prefixes in one Set: the last one wins *)
 Theorem C17_set_last_wins : forall l x,
   map_of l x = match find (fun p => fst p =? x) (rev l) with Some p => Some (snd p) | None => None end.
@@ -109,7 +136,7 @@ Proof. exact established_can_encode_refuted_prefix. Qed.
 (* non-vacuity: Set, connect, first flush, Set (change + removal), write failure
    in the middle of the diff, reader sees the drop, reconnect, first flush *)
 Example C17_nonvacuous :
-  let c := {| my_asn := 64512; peer_asn := 64999; universe := [0; 1; 2] |} in
+  let c := {| my_asn := 64512; peer_asn := 64999; universe := [0; 1; 2]; cfg_hold := None |} in
   let es := [ESet [(0, 1); (1, 1)]; EHandshake 1 64999 true true; EFirstFlush [1; 0] None;
              ESet [(0, 2); (2, 1); (2, 3)]; EDiffFlush [2; 0] [0; 1] (Some 1%nat); EReaderDrop 1;
              EPeerDrop; EHandshake 2 64999 false true; EFirstFlush [0; 2] None] in
@@ -121,7 +148,7 @@ Proof. vm_compute. repeat split. Qed.
 
 (* capability on -> off -> on across reconnections *)
 Example C17_nonvacuous_capability_flip :
-  let c := {| my_asn := 64512; peer_asn := 64999; universe := [0] |} in
+  let c := {| my_asn := 64512; peer_asn := 64999; universe := [0]; cfg_hold := Some 0 |} in
   match run c world0 [EHandshake 1 64999 true true; EPeerDrop; EReaderDrop 1; EHandshake 2 64999 false true] with
   | Some w => emit_width w = false /\ pcap (wp w) = false
   | None => False end /\
